@@ -22,6 +22,10 @@
 #include <new>
 #include <stdexcept>
 #include <dlfcn.h>
+#include <thread>
+#include <atomic>
+#include <mutex>
+#include <condition_variable>
 #include <unicode/uidna.h>
 
 // ---------------------------------------------------------------- ICU interposition (T2)
@@ -55,9 +59,12 @@ U_CAPI int32_t U_EXPORT2 uidna_nameToASCII(const UIDNA* idna, const UChar* name,
 }
 
 // ---------------------------------------------------------------- allocation failure injection (C20)
-static long g_fail_at = -1;      // fail the n-th allocation (1-based) while armed; -1 = off
-static long g_alloc_count = 0;
-static bool g_armed = false;
+static thread_local long g_fail_at = -1;      // fail the n-th allocation (1-based) while armed; -1 = off
+static thread_local long g_alloc_count = 0;
+static thread_local bool g_armed = false;
+static thread_local bool g_want_arm = false;   // set by the 'fail' command; the allocator is armed only inside library calls
+struct ArmGuard { ArmGuard() { g_armed = g_want_arm; } ~ArmGuard() { g_armed = false; } };
+#define ARM(STMT) do { ArmGuard ag_; STMT; } while (0)
 static void* verif_alloc(std::size_t n) {
     if (g_armed) {
         ++g_alloc_count;
@@ -124,9 +131,9 @@ struct view_like {
 // S is bound to the argument in the requested encoding and form, then CALL is evaluated
 #define WITH_FORMS(STR, CT, S, CALL) \
     switch (k_.form) { \
-    case 'v': { const view_like<CT> S{ (STR).data(), (STR).length() }; CALL; } break; \
-    case 'z': { const CT* S = (STR).c_str(); CALL; } break; \
-    default:  { const auto& S = (STR); CALL; } break; \
+    case 'v': { const view_like<CT> S{ (STR).data(), (STR).length() }; ArmGuard ag_; CALL; } break; \
+    case 'z': { const CT* S = (STR).c_str(); ArmGuard ag_; CALL; } break; \
+    default:  { const auto& S = (STR); ArmGuard ag_; CALL; } break; \
     }
 #ifdef __cpp_char8_t
 #define WITH_C8(S, CALL) { const std::u8string u8s_(reinterpret_cast<const char8_t*>(k_.s8.data()), k_.s8.size()); WITH_FORMS(u8s_, char8_t, S, CALL) }
@@ -144,14 +151,14 @@ struct view_like {
 // two string arguments in the same encoding (forms: both as std::basic_string / view)
 #define WITH_STR2(T1, T2, S1, S2, CALL) do { const Tok& a_ = (T1); const Tok& b_ = (T2); \
     switch (a_.enc) { \
-    case 'h': if (a_.form == 'v') { const view_like<char16_t> S1{a_.s16.data(), a_.s16.size()}; const view_like<char16_t> S2{b_.s16.data(), b_.s16.size()}; CALL; } \
-              else { const auto& S1 = a_.s16; const auto& S2 = b_.s16; CALL; } break; \
-    case 'w': if (a_.form == 'v') { const view_like<char32_t> S1{a_.s32.data(), a_.s32.size()}; const view_like<char32_t> S2{b_.s32.data(), b_.s32.size()}; CALL; } \
-              else { const auto& S1 = a_.s32; const auto& S2 = b_.s32; CALL; } break; \
-    case 'W': { const auto& S1 = a_.sw; const auto& S2 = b_.sw; CALL; } break; \
-    default:  if (a_.form == 'v') { const view_like<char> S1{a_.s8.data(), a_.s8.size()}; const view_like<char> S2{b_.s8.data(), b_.s8.size()}; CALL; } \
-              else if (a_.form == 'z' && !a_.has_nul && !b_.has_nul) { const char* S1 = a_.s8.c_str(); const char* S2 = b_.s8.c_str(); CALL; } \
-              else { const auto& S1 = a_.s8; const auto& S2 = b_.s8; CALL; } break; \
+    case 'h': if (a_.form == 'v') { const view_like<char16_t> S1{a_.s16.data(), a_.s16.size()}; const view_like<char16_t> S2{b_.s16.data(), b_.s16.size()}; ArmGuard ag_; CALL; } \
+              else { const auto& S1 = a_.s16; const auto& S2 = b_.s16; ArmGuard ag_; CALL; } break; \
+    case 'w': if (a_.form == 'v') { const view_like<char32_t> S1{a_.s32.data(), a_.s32.size()}; const view_like<char32_t> S2{b_.s32.data(), b_.s32.size()}; ArmGuard ag_; CALL; } \
+              else { const auto& S1 = a_.s32; const auto& S2 = b_.s32; ArmGuard ag_; CALL; } break; \
+    case 'W': { const auto& S1 = a_.sw; const auto& S2 = b_.sw; ArmGuard ag_; CALL; } break; \
+    default:  if (a_.form == 'v') { const view_like<char> S1{a_.s8.data(), a_.s8.size()}; const view_like<char> S2{b_.s8.data(), b_.s8.size()}; ArmGuard ag_; CALL; } \
+              else if (a_.form == 'z' && !a_.has_nul && !b_.has_nul) { const char* S1 = a_.s8.c_str(); const char* S2 = b_.s8.c_str(); ArmGuard ag_; CALL; } \
+              else { const auto& S1 = a_.s8; const auto& S2 = b_.s8; ArmGuard ag_; CALL; } break; \
     } } while (0)
 
 // ---------------------------------------------------------------- output helpers
@@ -167,9 +174,9 @@ static std::string hx(upa::string_view s) { return hx(s.data(), s.length()); }
 
 // ---------------------------------------------------------------- state
 static const int NSLOT = 4;
-static std::unique_ptr<upa::url> g_url[NSLOT];
-static upa::url_search_params* g_sp[NSLOT];          // reference obtained by search_params() (raw, owned by the url)
-static std::unique_ptr<upa::url_search_params> g_usp[NSLOT];   // standalone params objects
+static thread_local std::unique_ptr<upa::url> g_url[NSLOT];
+static thread_local upa::url_search_params* g_sp[NSLOT];          // reference obtained by search_params() (raw, owned by the url)
+static thread_local std::unique_ptr<upa::url_search_params> g_usp[NSLOT];   // standalone params objects
 
 static upa::url& U(int i) { if (!g_url[i]) g_url[i].reset(new upa::url()); return *g_url[i]; }
 
@@ -428,14 +435,14 @@ static std::string run_cmd(const std::vector<std::string>& a) {
         refresh_sp(s);
         return "set " + state(s);
     }
-    if (c == "get") { need(1); const int s = slot_of(a[1]); if (s < 0) return "ERR"; return "get " + state(s); }
-    if (c == "clear") { need(1); const int s = slot_of(a[1]); if (s < 0) return "ERR"; U(s).clear(); return "clear " + state(s); }
-    if (c == "copy") { need(2); const int d = slot_of(a[1]), s = slot_of(a[2]); if (d < 0 || s < 0) return "ERR"; U(d) = U(s); refresh_sp(d); return "copy " + state(d) + " | " + state(s); }
-    if (c == "copyctor") { need(2); const int d = slot_of(a[1]), s = slot_of(a[2]); if (d < 0 || s < 0 || d == s) return "ERR"; g_url[d].reset(new upa::url(U(s))); refresh_sp(d); return "copyctor " + state(d) + " | " + state(s); }
-    if (c == "move") { need(2); const int d = slot_of(a[1]), s = slot_of(a[2]); if (d < 0 || s < 0 || d == s) return "ERR"; U(d) = std::move(U(s)); refresh_sp(d); refresh_sp(s); return "move " + state(d) + " | " + state(s); }
+    if (c == "get") { need(1); const int s = slot_of(a[1]); if (s < 0) return "ERR"; if (g_want_arm) { upa::url& u_ = U(s); std::string o_; ARM(o_ = u_.origin()); } return "get " + state(s); }
+    if (c == "clear") { need(1); const int s = slot_of(a[1]); if (s < 0) return "ERR"; ARM(U(s).clear()); return "clear " + state(s); }
+    if (c == "copy") { need(2); const int d = slot_of(a[1]), s = slot_of(a[2]); if (d < 0 || s < 0) return "ERR"; ARM(U(d) = U(s)); refresh_sp(d); return "copy " + state(d) + " | " + state(s); }
+    if (c == "copyctor") { need(2); const int d = slot_of(a[1]), s = slot_of(a[2]); if (d < 0 || s < 0 || d == s) return "ERR"; { upa::url& src_ = U(s); std::unique_ptr<upa::url> nu_; ARM(nu_.reset(new upa::url(src_))); g_url[d] = std::move(nu_); } refresh_sp(d); return "copyctor " + state(d) + " | " + state(s); }
+    if (c == "move") { need(2); const int d = slot_of(a[1]), s = slot_of(a[2]); if (d < 0 || s < 0 || d == s) return "ERR"; { upa::url& dst_ = U(d); upa::url& src_ = U(s); ARM(dst_ = std::move(src_)); } refresh_sp(d); refresh_sp(s); return "move " + state(d) + " | " + state(s); }
     if (c == "movector") { need(2); const int d = slot_of(a[1]), s = slot_of(a[2]); if (d < 0 || s < 0 || d == s) return "ERR"; std::unique_ptr<upa::url> nu(new upa::url(std::move(U(s)))); g_url[d] = std::move(nu); refresh_sp(d); refresh_sp(s); return "movector " + state(d) + " | " + state(s); }
-    if (c == "safe_assign") { need(2); const int d = slot_of(a[1]), s = slot_of(a[2]); if (d < 0 || s < 0 || d == s) return "ERR"; U(d).safe_assign(std::move(U(s))); refresh_sp(d); refresh_sp(s); return "safe_assign " + state(d) + " | " + state(s); }
-    if (c == "swap") { need(2); const int d = slot_of(a[1]), s = slot_of(a[2]); if (d < 0 || s < 0 || d == s) return "ERR"; U(d).swap(U(s)); refresh_sp(d); refresh_sp(s); return "swap " + state(d) + " | " + state(s); }
+    if (c == "safe_assign") { need(2); const int d = slot_of(a[1]), s = slot_of(a[2]); if (d < 0 || s < 0 || d == s) return "ERR"; { upa::url& dst_ = U(d); upa::url& src_ = U(s); ARM(dst_.safe_assign(std::move(src_))); } refresh_sp(d); refresh_sp(s); return "safe_assign " + state(d) + " | " + state(s); }
+    if (c == "swap") { need(2); const int d = slot_of(a[1]), s = slot_of(a[2]); if (d < 0 || s < 0 || d == s) return "ERR"; { upa::url& dst_ = U(d); upa::url& src_ = U(s); ARM(dst_.swap(src_)); } refresh_sp(d); refresh_sp(s); return "swap " + state(d) + " | " + state(s); }
     if (c == "reparse") {
         // reparse <dst> <src> <base slot|->: parse the href of src (against base) into dst
         need(3); const int d = slot_of(a[1]), s = slot_of(a[2]); if (d < 0 || s < 0 || d == s) return "ERR";
@@ -446,13 +453,22 @@ static std::string run_cmd(const std::vector<std::string>& a) {
         validation_errc r = b >= 0 ? U(d).parse(href, U(b)) : U(d).parse(href);
         refresh_sp(d);
         const bool same = srcvalid && r == validation_errc::ok && obs(U(d)) == obs(U(s)) && U(d) == U(s);
-        return std::string("reparse ") + (r == validation_errc::ok ? "ok" : "fail") + " same=" + (same ? "1" : "0") + " " + state(d);
+        // the Standard-made exception: a protocol change into file: keeps host 'localhost' / a 'C|' segment
+        bool quirk = false;
+        {
+            const upa::url& su = U(s);
+            const std::string pn(su.pathname().data(), su.pathname().length());
+            if (su.is_file_scheme() && (std::string(su.hostname().data(), su.hostname().length()) == "localhost" ||
+                (pn.size() >= 3 && pn[0] == '/' && upa::detail::is_ascii_alpha(pn[1]) && pn[2] == '|' && (pn.size() == 3 || pn[3] == '/'))))
+                quirk = true;
+        }
+        return std::string("reparse ") + (r == validation_errc::ok ? "ok" : "fail") + " same=" + (same ? "1" : "0") + " quirk=" + (quirk ? "1" : "0") + " " + state(d);
     }
     if (c == "equals") { need(3); const int d = slot_of(a[1]), s = slot_of(a[2]); if (d < 0 || s < 0) return "ERR"; const bool xf = a[3] == "1";
         if (!U(d).is_valid() || !U(s).is_valid()) return "equals skipped";
         std::ostringstream o; o << "equals " << (upa::equals(U(d), U(s), xf) ? 1 : 0) << " eq=" << ((U(d) == U(s)) ? 1 : 0); return o.str(); }
     // ---- params linked to a url
-    if (c == "sp") { need(1); const int s = slot_of(a[1]); if (s < 0) return "ERR"; g_sp[s] = &U(s).search_params(); return "sp " + state(s); }
+    if (c == "sp") { need(1); const int s = slot_of(a[1]); if (s < 0) return "ERR"; { upa::url& u_ = U(s); ARM(g_sp[s] = &u_.search_params()); } return "sp " + state(s); }
     if (c.compare(0, 3, "sp_") == 0 || c.compare(0, 4, "usp_") == 0) {
         const bool linked = c[0] == 's';
         const std::string op = c.substr(linked ? 3 : 4);
@@ -486,8 +502,8 @@ static std::string run_cmd(const std::vector<std::string>& a) {
             else if (op == "get") { const std::string* g = nullptr; WITH_STR(n, S, g = p->get(S)); extra << " get=" << (g ? hx(*g) : std::string("null")); }
             else if (op == "getall") { std::list<std::string> l; WITH_STR(n, S, l = p->get_all(S)); extra << " getall="; bool f = true; for (auto& x : l) { extra << (f ? "" : ",") << hx(x); f = false; } if (f) extra << "-"; }
             else WITH_STR(n, S, p->parse(S));
-        } else if (op == "sort") p->sort();
-        else if (op == "clear") p->clear();
+        } else if (op == "sort") ARM(p->sort());
+        else if (op == "clear") ARM(p->clear());
         else if (op == "remove_if_empty_value") { const std::size_t k = p->remove_if([](const upa::url_search_params::value_type& kv) { return kv.second.empty(); }); extra << " removed=" << k; }
         else if (op == "assign" || op == "safe_assign" || op == "copyfrom") {
             // assign the standalone params object <k> to this params object
@@ -544,7 +560,7 @@ static std::string run_cmd(const std::vector<std::string>& a) {
         return "fromfile ok " + state(s); }
     if (c == "tofile") { need(2); const int s = slot_of(a[1]); if (s < 0) return "ERR";
         const auto fmt = a[2] == "posix" ? upa::file_path_format::posix : upa::file_path_format::windows;
-        const std::string p = upa::path_from_file_url(U(s), fmt); return "tofile ok " + hx(p); }
+        std::string p; { upa::url& u_ = U(s); ARM(p = upa::path_from_file_url(u_, fmt)); } return "tofile ok " + hx(p); }
     if (c == "filert") {
         // filert <posix|windows> <path>: path -> url -> path -> url -> path
         need(2); Tok t; if (!parse_tok(a[2], t)) return "ERR";
@@ -581,27 +597,60 @@ static std::vector<std::string> split(const std::string& line) {
     return a;
 }
 
+static std::string process_line(const std::string& line) {
+    auto a = split(line);
+    if (a.empty() || a[0][0] == '#') return "";
+    if (a[0] == "fail" && a.size() > 2) {
+        // fail <n> <cmd...>: arm the allocator for this command only; n = 0 only counts
+        const long n = std::strtol(a[1].c_str(), nullptr, 10);
+        std::vector<std::string> rest(a.begin() + 2, a.end());
+        g_alloc_count = 0; g_fail_at = n; g_want_arm = true;
+        std::string out = guarded([&] { return run_cmd(rest); });
+        g_want_arm = false; g_armed = false;
+        return out + " allocs=" + std::to_string(g_alloc_count);
+    }
+    return guarded([&] { return run_cmd(a); });
+}
+
 int main(int argc, char** argv) {
     std::ios::sync_with_stdio(false);
+    // driver [--threads N [--warmup]] [file]
+    int nthreads = 0; bool warmup = false; const char* file = nullptr;
+    for (int i = 1; i < argc; ++i) {
+        if (std::string(argv[i]) == "--threads" && i + 1 < argc) nthreads = std::atoi(argv[++i]);
+        else if (std::string(argv[i]) == "--warmup") warmup = true;
+        else file = argv[i];
+    }
     std::istream* in = &std::cin; std::ifstream f;
-    if (argc > 1) { f.open(argv[1]); in = &f; }
-    std::string line;
-    while (std::getline(*in, line)) {
-        auto a = split(line);
-        if (a.empty() || a[0][0] == '#') { std::cout << "\n"; continue; }
-        std::string out;
-        if (a[0] == "fail" && a.size() > 2) {
-            // fail <n> <cmd...>: arm the allocator for this command only; n = 0 counts allocations
-            const long n = std::strtol(a[1].c_str(), nullptr, 10);
-            std::vector<std::string> rest(a.begin() + 2, a.end());
-            g_alloc_count = 0; g_fail_at = n; g_armed = true;
-            out = guarded([&] { return run_cmd(rest); });
-            g_armed = false;
-            out += " allocs=" + std::to_string(g_alloc_count);
-        } else {
-            out = guarded([&] { return run_cmd(a); });
-        }
-        std::cout << out << "\n";
+    if (file) { f.open(file); in = &f; }
+    if (nthreads <= 0) {
+        std::string line;
+        while (std::getline(*in, line)) std::cout << process_line(line) << "\n";
+        std::cout.flush();
+        return 0;
+    }
+    // multithreaded mode (C19): every thread replays the whole stream on thread-private objects;
+    // all threads are released together so that the very first IDNA conversion is contended
+    std::vector<std::string> lines; { std::string line; while (std::getline(*in, line)) lines.push_back(line); }
+    if (warmup) { upa::url w; w.parse("http://b\xC3\xBCcher.example/", nullptr); }
+    std::vector<std::vector<std::string>> outs(nthreads);
+    std::mutex m; std::condition_variable cv; int ready = 0; bool go = false;
+    std::vector<std::thread> th;
+    for (int t = 0; t < nthreads; ++t) {
+        th.emplace_back([&, t] {
+            { std::unique_lock<std::mutex> lk(m); ++ready; cv.notify_all(); cv.wait(lk, [&] { return go; }); }
+            for (const auto& l : lines) outs[t].push_back(process_line(l));
+            for (int i = 0; i < NSLOT; ++i) { g_url[i].reset(); g_usp[i].reset(); g_sp[i] = nullptr; }
+        });
+    }
+    { std::unique_lock<std::mutex> lk(m); cv.wait(lk, [&] { return ready == nthreads; }); go = true; cv.notify_all(); }
+    for (auto& x : th) x.join();
+    // thread 0's transcript, then for every other thread the index of the first differing line (or "same")
+    for (const auto& l : outs[0]) std::cout << l << "\n";
+    for (int t = 1; t < nthreads; ++t) {
+        std::size_t k = 0; while (k < outs[0].size() && k < outs[t].size() && outs[0][k] == outs[t][k]) ++k;
+        if (k == outs[0].size() && k == outs[t].size()) std::cout << "THREAD " << t << " same\n";
+        else std::cout << "THREAD " << t << " differs-at " << k << " " << (k < outs[t].size() ? outs[t][k] : std::string("<missing>")) << "\n";
     }
     std::cout.flush();
     return 0;
